@@ -119,7 +119,6 @@ M = [
 	}
 	return r.str
 }"""),
- ("C05","status-not-atomic","response_writer.go","	return int(atomic.LoadInt32(&w.status))","	return int(w.status)"),
  ("C06","ident-without-dollar","internal/route/parser.go","`[a-zA-Z0-9\\-._~@!$&'()*+;%=]+`","`[a-zA-Z0-9\\-._~@!&'()*+;%=]+`"),
  ("C06","regex-without-pipe","internal/route/parser.go","`[a-zA-Z0-9*\\-+._,?()\\[\\]{} \\\\\\|]+`","`[a-zA-Z0-9*\\-+._,?()\\[\\]{} \\\\]+`"),
  ("C06","render-colon-without-blank","internal/route/definition.go",'buf.WriteString(": ")','buf.WriteString(":")'),
@@ -139,7 +138,7 @@ M = [
 	}""","""		leaf.Handler()(w, req, route.Params{
 			"route": leaf.Route(),
 		})
-		if req.Header.Get("X-Trace") == "" {
+		if req.Method != http.MethodHead || len(req.Header) == 0 {
 			return
 		}
 	}"""),
@@ -203,7 +202,6 @@ M = [
 	}
 	return r.Route(http.MethodPost, routePath, handlers)"""),
  ("C11","routes-without-trimspace","router.go","ms = append(ms, strings.TrimSpace(m))","ms = append(ms, strings.TrimLeft(m, \" \"))"),
- ("C11","combo-added-not-updated","router.go","	r.added[method] = struct{}{}\n","	if method != http.MethodDelete {\n		r.added[method] = struct{}{}\n	}\n"),
  ("C11","group-handlers-inner-first","router.go","""		for _, g := range r.groups {
 			groupPath += g.path
 			hs = append(hs, g.handlers...)
